@@ -556,8 +556,11 @@ def run_task(prop: Any, task: Dict[str, Any]) -> Dict[str, Any]:
             samples.append({"env": task["env"], "config": cfg["id"], "B": B, "next_obs_in_extras": flag, "keys": ops["keys"],
                             "segments": ops["segments"][:6], "n_segments": len(ops["segments"])})
         if i == 0:
-            ops2 = _regenerate(ws, mode, task, cfg, shard, 0, B)
-            det_ok = util.canon(ops2) == util.canon(ops)
+            try:
+                ops2 = _regenerate(ws, mode, task, cfg, shard, 0, B)
+                det_ok = util.canon(ops2) == util.canon(ops)
+            except Violation:
+                det_ok = None
         i += 1
     return {
         "task": {"prop": mode, "env": task["env"], "cfg": cfg["id"], "shard": shard},
